@@ -626,6 +626,13 @@ func main() {
 	for i := 0; i < o.N/2; i++ {
 		recipes = append(recipes, genRecvRecipe(rrng))
 	}
+	// round 6: the vector and matrix distribution registries (own stream, own generator state)
+	recipes = append(recipes, registrySweep()...)
+	recipes = append(recipes, vcfgSweep()...)
+	vrng := NewRng(o.Seed ^ 0x7ec6)
+	for i := 0; i < o.N/6; i++ {
+		recipes = append(recipes, genVCfgRecipe(vrng))
+	}
 	var orc []OracleRec
 	for i, rc := range recipes {
 		if os.Getenv("C18_TRACE") != "" {
@@ -652,7 +659,7 @@ func main() {
 }
 
 // one case writer per Coq case type: JSON formats (Corr.v), tables (TableCorr.v), configurations (ConfigCorr.v)
-type writers struct{ json, table, cfg, recv *CaseWriter }
+type writers struct{ json, table, cfg, recv, vcfg, reg *CaseWriter }
 
 func newWriters(dir, prefix string) *writers {
 	w := NewCaseWriter(dir, prefix+"cases", header, "mism", 60)
@@ -667,7 +674,13 @@ func newWriters(dir, prefix string) *writers {
 	rv := NewCaseWriter(dir, prefix+"rcases", rheader, "rmism", 40)
 	rv.Type = "rcase"
 	rv.Rule = "recycled-receiver cases: non-trivial when the bytes were decoded successfully into a receiver that was not fresh; distinct = distinct (kind, element type, receiver shape, byte length, outcome)"
-	return &writers{w, t, c, rv}
+	vc := NewCaseWriter(dir, prefix+"vcases", vheader, "vmism", 40)
+	vc.Type = "vcase"
+	vc.Rule = "vector/matrix registry cases: non-trivial when ExportConfig -> JSON -> ImportConfig succeeded on a distribution with components, or the malformed configuration reached the importer; distinct = distinct (family path | mutation, root name, outcome kind)"
+	g := NewCaseWriter(dir, prefix+"gcases", gheader, "gmism", 10)
+	g.Type = "gcase"
+	g.Rule = "registry obligation: five tables (registry assignments, ExportConfig names and ImportConfig callees regenerated from the sources by go/ast; the registries of the running program; the harness's name tables), each non-trivial"
+	return &writers{w, t, c, rv, vc, g}
 }
 func (ws *writers) pick(kind string) *CaseWriter {
 	if _, _, ok := recvKind(kind); ok {
@@ -676,13 +689,19 @@ func (ws *writers) pick(kind string) *CaseWriter {
 	if _, _, ok := tableKind(kind); ok {
 		return ws.table
 	}
+	if strings.HasPrefix(kind, "reg-") {
+		return ws.reg
+	}
+	if strings.HasPrefix(kind, "vcfg") {
+		return ws.vcfg
+	}
 	if strings.HasPrefix(kind, "cfg") {
 		return ws.cfg
 	}
 	return ws.json
 }
 func (ws *writers) flush() {
-	for _, w := range []*CaseWriter{ws.json, ws.table, ws.cfg, ws.recv} {
+	for _, w := range []*CaseWriter{ws.json, ws.table, ws.cfg, ws.recv, ws.vcfg, ws.reg} {
 		if err := w.Flush(); err != nil {
 			Die("flush: %v", err)
 		}
@@ -715,7 +734,9 @@ func hunt(o Opts) {
 		recipes = append(recipes, in.Cases...)
 	}
 	for i := 0; i < o.N; i++ {
-		switch i % 6 {
+		switch i % 7 {
+		case 6:
+			recipes = append(recipes, genVCfgRecipe(rng))
 		case 1, 3:
 			recipes = append(recipes, genTableRecipe(rng))
 		case 2:
@@ -729,7 +750,7 @@ func hunt(o Opts) {
 	seen := map[string]bool{}
 	var out []OracleRec
 	for i, rc := range recipes {
-		if rc.Kind == "t-lit" || rc.Kind == "rv-fields" {
+		if rc.Kind == "t-lit" || rc.Kind == "rv-fields" || strings.HasPrefix(rc.Kind, "reg-") {
 			continue
 		}
 		for _, f := range runRecipe(rc).Failures {
@@ -771,7 +792,7 @@ func replay(o Opts) {
 		Die("replay file holds no recipe")
 	}
 	res := runRecipe(*rc)
-	for _, old := range []string{"replay_0.v", "replay_tcases_0.v", "replay_ccases_0.v", "replay_cases_0.v", "replay_rcases_0.v"} {
+	for _, old := range []string{"replay_0.v", "replay_tcases_0.v", "replay_ccases_0.v", "replay_cases_0.v", "replay_rcases_0.v", "replay_vcases_0.v", "replay_gcases_0.v"} {
 		os.Remove(filepath.Join(o.Out, old))
 	}
 	ws := newWriters(o.Out, "replay_")
